@@ -594,3 +594,14 @@ pub fn mapping_long_strings(rng: &mut Rng) -> Vec<u8> {
     out.push_str(&format!("    java.lang.String fld -> f\n    3:3:void q({}) -> m\n", long(rng, 140)));
     out.into_bytes()
 }
+
+/// arbitrary Unicode text with multi-byte characters next to every delimiter the parsers slice at
+pub fn unicode_soup(rng: &mut Rng) -> String {
+    let pieces: &[&str] = &["at ", "(", ")", ":", ".", ": ", "Caused by: ", "é", "𝕏", "\u{a0}", "\u{2003}", "L", ";", "[", "/", "1", "18446744073709551616",
+                            "\n", "\r\n", "\t", " ", "a", "$", "ß", "\u{85}", "V", "I"];
+    let mut t = String::new();
+    for _ in 0..rng.below(14) {
+        t.push_str(rng.pick(pieces));
+    }
+    t
+}
